@@ -503,6 +503,15 @@ def main(tier):
         if enc == "json":
             fh = [h for h in fh if h.kind != "header"]
         tasks.append(("%s,full" % enc, enc, caller, {}, fh, 1 if tier == "quick" else 2))
+    # neighbouring names: a file whose name begins like the name of the file before it (`README`, `README-fr.md`);
+    # the second is a file of its own unless the first could have context lines that look like it (a name with an
+    # extension followed by a separator: outside the guarantee for plain text)
+    nb = make_hits(["./README", "./README-fr.md", "pkg.d/LICENSE", "pkg.d/LICENSE-apache.txt", "Makefile", "Makefile-old.mk"],
+                   [None, 7], ["x main", "voir: main"], kinds=[("match", ":")])
+    for enc, caller in (("plain", GG), ("plain", ["rg", "main"]), ("coloured", GG), ("json", None)):
+        for lbl, ov in (("classic", {"grep-output-type": "classic"}), ("ripgrep", {"grep-output-type": "ripgrep"})):
+            tasks.append(("%s,%s,%s,neighbours" % (enc, " ".join(caller or ["-"]), lbl), enc, caller, ov,
+                          nb if enc != "plain" else [h for h in nb if not ambiguous_plain(h)], 2 if tier == "quick" else 3))
     for cw in (["git", "grep", "-W", "main"], ["git", "grep", "-p", "main"]):
         tasks.append(("coloured," + " ".join(cw), "coloured", cw, {}, small, depth))
     # sort big first
